@@ -40,6 +40,12 @@ func propC15(a *Analysis, r *Registry) {
 		fc := X.FCFor(fn)
 		env := X.EnvFor(fn, "xs", "ys", "weights", "degree")
 		nterms := 0
+		type termStore struct {
+			fc  *FC
+			st  *ssa.Store
+			idx *RF
+		}
+		var termStores []termStore
 		b.guard(rB, name+"/basis", func() {
 			// the basis functions are stored here or by a helper that builds the slice; a stored value
 			// may be a closure or the result of a factory that picks a closure by the degree
@@ -59,6 +65,7 @@ func propC15(a *Analysis, r *Registry) {
 					}
 					nterms++
 					idx := sfc.Val(ia.Index)
+					termStores = append(termStores, termStore{sfc, st, idx})
 					construct := name + "/basis/terms[" + clip(idx.String(), 40) + "]"
 					deg, msg := basisDegreeOf(X, sfc.Val(st.Val))
 					if deg == nil {
@@ -73,6 +80,113 @@ func propC15(a *Analysis, r *Registry) {
 				})
 			}
 			r.Floor(rB, "basis functions checked", nterms, 2)
+			// every index 0..degree gets its function: constant indexes 0..d0-1 stored exactly when
+			// they exist (k <= degree), and one loop storing at d = d0, d0+1, … while d < len(terms).
+			// An unset entry is a nil function LinearLeastSquares would call.
+			if len(termStores) > 0 {
+				consts := map[int64]termStore{}
+				var loops []termStore
+				okShape := true
+				for _, ts := range termStores {
+					if c, isC := ts.idx.IsConst(); isC && c.IsInt() {
+						consts[c.Num().Int64()] = ts
+					} else if len(ts.fc.loopPhis(ts.idx)) > 0 {
+						loops = append(loops, ts)
+					} else {
+						okShape = false
+					}
+				}
+				cn := name + "/basis/all-set"
+				// (several stores in one loop — a switch on the degree — count as one when together
+				// they cover every iteration)
+				sameLoop := len(loops) > 0
+				for _, ts := range loops[min(1, len(loops)):] {
+					if ts.fc != loops[0].fc || !ts.idx.Equal(loops[0].idx) {
+						sameLoop = false
+					}
+				}
+				if !okShape || !sameLoop {
+					r.Fail(rB, cn, b.pos(fn), fmt.Sprintf("expected stores at constant indexes and one loop over the remaining degrees, found %d constant and %d loop stores", len(consts), len(loops)))
+				} else {
+					lp := loops[0]
+					if pa := lp.fc.loopPhis(lp.idx); len(pa) == 1 && X.phiOf[pa[0].SingleAtom().ID] != nil {
+						lh := X.phiOf[pa[0].SingleAtom().ID].Block()
+						var body *ssa.BasicBlock
+						if ll := lp.fc.Ctx.LoopOf(lp.st.Block()); ll != nil && ll.Header == lh {
+							exits := false
+							for _, sc := range lh.Succs {
+								if ll.Body[sc.Index] {
+									body = sc
+								} else {
+									exits = true
+								}
+							}
+							if !exits {
+								body = lh
+							}
+						}
+						if body == nil {
+							r.Fail(rB, cn+"/every-iteration", a.W.InstrPos(lp.st), "the store is not in the body of the loop over the degrees")
+						} else {
+							every := S.False()
+							for _, ts := range loops {
+								every = S.Or(every, lp.fc.ReachCondFrom(body, ts.st.Block()))
+							}
+							if every.Equal(S.True()) || X.EquivByCases(every, S.True(), 0) {
+								r.OK(rB, cn+"/every-iteration", a.W.InstrPos(lp.st), "every iteration of the loop over the degrees stores a function")
+							} else {
+								r.Fail(rB, cn+"/every-iteration", a.W.InstrPos(lp.st), "an iteration of the loop over the degrees can pass without storing a function: "+clip(every.String(), 120))
+							}
+						}
+					}
+					ki, _ := recurrenceOrNil(lp.fc, lp.idx)
+					d0, isC := int64(-1), false
+					if ki != nil {
+						if c, ok := ki.IsConst(); ok && c.IsInt() {
+							d0, isC = c.Num().Int64(), true
+						}
+					}
+					tl := S.MakeFn("len", lp.fc.Val(lp.st.Addr.(*ssa.IndexAddr).X))
+					if !isC && ki != nil && ki.Equal(tl.Sub(S.Int(1))) {
+						// from the highest degree down to a constant one
+						for c := int64(0); c <= 4 && !isC; c++ {
+							c := c
+							mark := len(r.Obs)
+							b.AnyOf(func() {
+								b.FullScan("C-scan coverage", cn+"/loop", a.W.InstrPos(lp.st), lp.fc, lp.idx.Sub(S.Int(c)), tl.Sub(S.Int(c)))
+							})
+							if len(r.Obs) > mark && r.Obs[len(r.Obs)-1].st == Discharged {
+								d0, isC = c, true
+							} else {
+								r.Obs = r.Obs[:mark]
+							}
+						}
+						if !isC {
+							r.Fail(rB, cn, a.W.InstrPos(lp.st), "the descending loop over the degrees does not stop at a constant degree")
+						}
+					} else if !isC {
+						r.Fail(rB, cn, a.W.InstrPos(lp.st), "the loop over the degrees does not start at a constant degree")
+					} else {
+						b.FullScan("C-scan coverage", cn+"/loop", a.W.InstrPos(lp.st), lp.fc, lp.idx.Sub(S.Int(d0)), tl.Sub(S.Int(d0)))
+					}
+					if isC {
+						for k := int64(0); k < d0; k++ {
+							ts, have := consts[k]
+							if !have {
+								r.Fail(rB, fmt.Sprintf("%s/terms[%d]", cn, k), b.pos(fn), fmt.Sprintf("no function is stored at terms[%d] although the loop starts at degree %d", k, d0))
+								continue
+							}
+							rc := ts.fc.ReachCond(ts.st.Block())
+							want := env.MustParse(fmt.Sprintf("%d<=degree", k))
+							if rc.Equal(S.True()) && k == 0 || rc.Equal(want) || X.EquivByCases(rc, want, 0) {
+								r.OK(rB, fmt.Sprintf("%s/terms[%d]", cn, k), a.W.InstrPos(ts.st), fmt.Sprintf("terms[%d] is set exactly when it exists (%d <= degree)", k, k))
+							} else {
+								r.Fail(rB, fmt.Sprintf("%s/terms[%d]", cn, k), a.W.InstrPos(ts.st), fmt.Sprintf("terms[%d] is stored under %s, not exactly when %d <= degree: an entry is left nil or the store is out of range", k, clip(rc.String(), 100), k))
+							}
+						}
+					}
+				}
+			}
 			// len(terms) = degree+1
 			if at := fc.Val(fc.TheCallTo("fit.LinearLeastSquares").Call.Args[3]).SingleAtom(); at != nil && strings.HasPrefix(at.Name, "makeslice:") {
 				b.Eq(rB, name+"/len(terms)", b.pos(fn), at.Args[0], env, "degree+1")
